@@ -3,6 +3,7 @@ package main
 import (
 	"bytes"
 	"fmt"
+	"sort"
 	"strings"
 
 	"google.golang.org/protobuf/encoding/protowire"
@@ -169,7 +170,12 @@ func (c *ctx) genMsg(r *hlib.Rng, sm *c14schema.Message, depth int, sh *shape) p
 			}
 		}
 	}
+	var oneofs []int
 	for o := range chosen {
+		oneofs = append(oneofs, o)
+	}
+	sort.Ints(oneofs)
+	for _, o := range oneofs {
 		var members []int
 		for _, f := range sm.Fields {
 			if f.Oneof == o {
